@@ -1522,15 +1522,39 @@ class Engine:
         lo = self.val(st, fr, ins["lo"]) if ins["lo"] is not None else None
         hi = self.val(st, fr, ins["hi"]) if ins["hi"] is not None else None
         mx = self.val(st, fr, ins["max"]) if ins["max"] is not None else None
-        for v in (lo, hi, mx):
-            if is_sym(v):
-                v2 = z3.simplify(v)
-                if not z3.is_bv_value(v2):
-                    raise Unsupported("symbolic slice bound")
         def cv(v):
-            if is_sym(v):
-                return z3.simplify(v).as_long()
-            return v
+            if not is_sym(v):
+                return v
+            v2 = z3.simplify(v)
+            if z3.is_bv_value(v2) or z3.is_int_value(v2):
+                return v2.as_long()
+            # symbolic bound: concretise over the feasible values in [0, cap] (forks; the instruction is re-executed)
+            if isinstance(x, Slice):
+                top = x.cap
+            elif isinstance(x, str):
+                top = len(x.encode("utf-8"))
+            elif x is None:
+                top = 0
+            else:
+                top = 64
+            alts = []
+            for k in range(0, top + 1):
+                c = (v == k) if is_arith(v) else (v == z3.BitVecVal(k, v.size()))
+                if self.feasible(st, c):
+                    alts.append((c, lambda s: None))
+            oob = (z3.Or(v < 0, v > top)) if is_arith(v) else z3.UGT(v, z3.BitVecVal(top, v.size()))
+            if self.feasible(st, oob):
+                def pan(s):
+                    raise GoPanic("slice bounds out of range (symbolic)")
+                alts.append((oob, pan))
+            if len(alts) == 1 and alts[0][1].__name__ == "<lambda>":
+                st.assume(alts[0][0])
+                m = self.solver.last_model
+                for k in range(0, top + 1):
+                    c = (v == k) if is_arith(v) else (v == z3.BitVecVal(k, v.size()))
+                    if self.must(st, c):
+                        return k
+            raise Fork(alts)
         lo, hi, mx = cv(lo), cv(hi), cv(mx)
         xu = self.ir.under(ins["xt"])
         if isinstance(x, str) or (xu["k"] == "basic" and xu.get("cls") == "string"):
